@@ -19,8 +19,8 @@ RLIMIT_RETRY = 80    # second attempt for a failed baseline obligation
 # property -> units (order = layering, bottom first)
 PROPERTY_UNITS = {
     "C06": ["bdd_ops", "dnf", "proper_subtype", "semtype_ops"],
-    "C04": ["bdd_ops", "dnf", "proper_subtype", "semtype_ops", "to_schema", "list_shape", "mapping_dnf", "access", "list_access", "ctx_tables"],
-    "C05": ["semtype_ops", "list_shape", "mapping_dnf", "ctx_tables"],
+    "C04": ["bdd_ops", "dnf", "proper_subtype", "semtype_ops", "to_schema", "list_shape", "mapping_dnf", "access", "list_access", "ctx_tables", "mapping_steps"],
+    "C05": ["semtype_ops", "list_shape", "mapping_dnf", "ctx_tables", "mapping_steps"],
     "C07": ["dnf", "to_schema", "list_access", "access"],
 }
 # obligation kind -> which property "owns" it when no explicit tag is given
